@@ -48,8 +48,8 @@ class JumpWriteHandler(AbstractWriteHandler):
         """Delegates to the handlers in .label_jump"""
         logger.debug("Handling a jump; (%s)...", self.start_vertex["op"])
         op: SsbLabelJump = self.start_vertex["op"]
-        # TODO: Writing this source map entry may be confusing, if no jump is written next (by the label handler)...
-        self.decompiler.source_map_add_opcode(op.offset)
+        # The source map entry is written together with the jump statement (see write_label_jump): if the label after
+        # this is written right here, no statement is written for this jump at all.
         # Nothing to do, this is dealt with, when processing the label after this
         # either we print a jump there, or we just proceed.
         exits = self.start_vertex.out_edges()
